@@ -71,6 +71,7 @@ var OverlappingFieldsCanBeMergedRule = Rule{
 
 		m := &overlappingFieldsCanBeMergedManager{
 			comparedFragmentPairs: pairSet{data: make(map[string]map[string]bool)},
+			fieldPairsInProgress:  make(map[fieldPair]bool),
 		}
 
 		observers.OnOperation(func(walker *Walker, operation *ast.OperationDefinition) {
@@ -239,6 +240,13 @@ type overlappingFieldsCanBeMergedManager struct {
 	// per walker
 	comparedFragmentPairs pairSet
 	// cachedFieldsAndFragmentNames interface{}
+
+	// pairs of fields whose comparison is in progress further up the call stack
+	fieldPairsInProgress map[fieldPair]bool
+}
+
+type fieldPair struct {
+	a, b *ast.Field
 }
 
 func (m *overlappingFieldsCanBeMergedManager) findConflictsWithinSelectionSet(selectionSet ast.SelectionSet) []*ConflictMessage {
@@ -422,6 +430,17 @@ func (m *overlappingFieldsCanBeMergedManager) findConflict(parentFieldsAreMutual
 	if fieldA.ObjectDefinition == nil || fieldB.ObjectDefinition == nil {
 		return nil
 	}
+
+	// Comparing the sub selections of two fields can lead back to the same two fields
+	// when fragments spread each other cyclically through fields. The comparison that
+	// is already running reports whatever there is to report; starting it again would
+	// recurse until the stack is exhausted.
+	pair := fieldPair{fieldA, fieldB}
+	if m.fieldPairsInProgress[pair] {
+		return nil
+	}
+	m.fieldPairsInProgress[pair] = true
+	defer delete(m.fieldPairsInProgress, pair)
 
 	areMutuallyExclusive := parentFieldsAreMutuallyExclusive
 	if !areMutuallyExclusive {
